@@ -26,6 +26,7 @@ import (
 )
 
 type table struct {
+	bnumber  int // Shm.BNumber as found
 	n        int
 	name     [][]byte // Brdname, all bytes
 	title    [][]byte // Title, all bytes
@@ -126,7 +127,10 @@ func lower(b []byte) []byte {
 // readTable reads the loaded table back from shared memory.
 func readTable() *table {
 	shm := cache.Shm.Shm
-	t := &table{n: int(shm.BNumber)}
+	t := &table{n: int(shm.BNumber), bnumber: int(shm.BNumber)}
+	if t.n > maxBoard || t.n < 0 {
+		t.n = maxBoard // BNumber beyond the arrays: judged at the reset line (load:oversized), the rest reads the table
+	}
 	for i := 0; i < t.n; i++ {
 		b := &shm.BCache[i]
 		t.name = append(t.name, append([]byte{}, b.Brdname[:]...))
@@ -248,6 +252,8 @@ func resetTable(bs []board) {
 	line := setTable(bs)
 	if busyBefore {
 		line += " busy"
+	} else if len(bs) > t0n() {
+		line += fmt.Sprintf(" over=%d", len(bs)-t0n())
 	}
 	t := cur
 	b2i := func(b bool) int {
@@ -272,12 +278,24 @@ func resetTable(bs []board) {
 	if t.class5 {
 		label += ":class5"
 	}
+	if len(bs) > maxBoard {
+		label += ":oversized-file"
+	}
 	if t.invalid {
 		label += ":invalid-names"
 	}
 	i := op(line, out, label, false)
 	// the loaded table is the file that was written, whatever the busy flag said before (a stale flag can only be the
 	// leftover of a dead loader), and the flag is released afterwards
+	if reloadPanic != "" {
+		fail(i, "crash:reload", "ReloadBCache PANIC (%s) on a .BRD of %d records (MAX_BOARD %d)", hx.LastPanic, len(bs), maxBoard)
+	}
+	if t.bnumber != t.n || t.n != min(len(bs), maxBoard) {
+		fail(i, "load:oversized", "a .BRD of %d records gives NumBoards = %d; the table holds %d", len(bs), t.bnumber, maxBoard)
+	}
+	if len(bs) > maxBoard {
+		bs = bs[:maxBoard]
+	}
 	if d := t.diffWritten(bs); d != "" {
 		fail(i, "load:table", "after ReloadBCache (busy flag before: %v) the cache does not hold .BRD: %s", busyBefore, d)
 	}
@@ -291,6 +309,8 @@ func resetTable(bs []board) {
 		fail(i, "sorted:byclass", "BSorted[byClass] = %v is not a sorted permutation of the %d boards", t.sorted[1], t.n)
 	}
 }
+
+func t0n() int { return cur.n }
 
 // diffWritten compares the loaded table with the boards written to .BRD.
 func (t *table) diffWritten(bs []board) string {
